@@ -1390,6 +1390,21 @@ func (c *cluster) followResizeInstruction(instr *ResizeInstruction) error {
 				}(); err != nil {
 					return errors.Wrap(err, "copying remote shard")
 				}
+
+				// The bit depth of an integer field is raised by the node
+				// that executes a write. This node has not seen the writes
+				// of the shard it just received, so it must raise its own
+				// depth to cover the rows that arrived.
+				if f.Type() == FieldTypeInt && src.View == viewBSIGroupPrefix+f.name {
+					frag.mu.RLock()
+					maxRow := frag.storage.Max() / ShardWidth
+					frag.mu.RUnlock()
+					if maxRow >= bsiOffsetBit {
+						if _, err := f.raiseBSIBitDepth(f.name, uint(maxRow-bsiOffsetBit+1)); err != nil {
+							return errors.Wrap(err, "raising bit depth")
+						}
+					}
+				}
 			}
 			return nil
 		}(); err != nil {
